@@ -15,7 +15,7 @@ PROPS = {
     },
     "C02": {
         "suites": ["cluster", "pair", "apply"],
-        "level_text": "C02_exact_up_to_frontier_partial / C02_no_resurrection_partial: in every state reachable by the copy-level step relation XReach (owner writes, GC of any copy at any time, copies created/removed, deltas computed from any copy for any digest and truncation point, any delta delivered to any copy any number of times in any order) in which no delivery matches the KF-1 pattern, every copy is exact up to its frontier; proved by an inductive system invariant (Lemmas/SystemInv.lean) over an abstract ledger layer (Lemmas/Ledger.lean) to which the executable model is connected by refinement lemmas (Lemmas/LedgerRefine.lean). C02_counterexample: the full statement is false of model and code (KF-1), C02_counterexample_is_kf1. Tied by cluster/pair/apply suites; a ledger monitor checks the statement on every copy of the real nodes after every step, with taint tracking that separates KF-1 from any other violation.",
+        "level_text": "C02_exact_up_to_frontier_partial / C02_no_resurrection_partial: in every state reachable by the copy-level step relation XReach (owner writes, GC of any copy at any time, copies created/removed, deltas computed from any copy for any digest and truncation point, any delta delivered to any copy any number of times in any order) in which no delivery matches the KF-1 pattern, every copy is exact up to its frontier; C02_no_gap_on_apply (an incremental apply starts at or below the copy's max version, a reset at 0); proved by an inductive system invariant (Lemmas/SystemInv.lean) over an abstract ledger layer (Lemmas/Ledger.lean) to which the executable model is connected by refinement lemmas (Lemmas/LedgerRefine.lean). C02_counterexample: the full statement is false of model and code (KF-1), C02_counterexample_is_kf1. Tied by cluster/pair/apply suites; a ledger monitor checks the statement on every copy of the real nodes after every step, with taint tracking that separates KF-1 from any other violation.",
         "level_note": _COMMON_NOTE + "PARTIAL: proved under the hypothesis that no delivery matches the KF-1 pattern (receiver watermark above both the delta's max version and its sender's horizon); without it the property is false (known finding KF-1, not repaired: every repair found contradicts C14/C01).",
         "assumptions": ["every ChitchatId is used by one incarnation", "no KF-1-pattern delivery (else known finding)"],
         "partial": "holds outside the KF-1 pattern only; the unrestricted statement is false (known finding)",
@@ -28,7 +28,7 @@ PROPS = {
     },
     "C04": {
         "suites": ["apply", "node", "pair"],
-        "level_text": "Theorems for every copy and every delta (C04_apply_monotone, C04_frontier_monotone, C04_key_version_monotone, C04_cluster_apply_no_panic), every local write (C04_*_fresh_version, C04_set_same_value_noop) and GC (C04_gc_monotone), unbounded; model tied to state.rs by exhaustive small-scope + random differential runs of apply_delta, the local write API and the sender/receiver pair.",
+        "level_text": "Theorems for every copy and every delta (C04_apply_monotone, C04_frontier_monotone, C04_key_version_monotone, C04_new_kv_kept: a key-value of the delta that is new to the copy is never shadowed by an older one, C04_cluster_apply_no_panic), every local write (C04_*_fresh_version, C04_set_same_value_noop) and GC (C04_gc_monotone), unbounded; model tied to state.rs by exhaustive small-scope + random differential runs of apply_delta, the local write API and the sender/receiver pair.",
         "level_note": _COMMON_NOTE + "u64 version overflow is out of scope (unbounded Nat). The system-level statement (any delivery order) follows because every delivered node delta satisfies KvsLeMax (C09_decoded_delta_wf) and apply only touches the addressed copy.",
         "assumptions": ["u64 version overflow (2^64 writes) is out of scope: versions are unbounded naturals in the model"],
     },
@@ -73,7 +73,7 @@ PROPS = {
     },
     "C11": {
         "suites": ["fd", "cluster", "apply"],
-        "level_text": "C11_stale_is_noop (an equal/lower heartbeat changes nothing: copies, failure detector, GC memory), C11_window_only_on_fresh (the sampling window only ever sees values strictly above a known non-zero heartbeat), C11_one_report_not_alive, C11_steady_alive (intervals >= a, last fresh heartbeat <= b old, theta >= b/min(a, initial) => alive), C11_reset_keeps_heartbeat (F-5 repair); tied by the fd/cluster/apply suites incl. replayed, lower and relayed heartbeats around gossip resets.",
+        "level_text": "C11_stale_is_noop (an equal/lower heartbeat changes nothing: copies, failure detector, GC memory), C11_window_only_on_fresh (the sampling window only ever sees values strictly above a known non-zero heartbeat), C11_one_report_not_alive, C11_steady_alive (intervals >= a, last fresh heartbeat <= b old, theta >= b/min(a, initial) => alive), C11_reset_keeps_heartbeat (F-5 repair), C11_digest_heartbeats_reach / C11_digest_heartbeats_monotone (every heartbeat of a digest reaches the copy unless the removed-member guard refuses it; no entry is lost because of another one); tied by the fd/cluster/apply suites incl. replayed, lower and relayed heartbeats around gossip resets.",
         "level_note": _COMMON_NOTE + "PARTIAL: exact arithmetic vs f64 (see C10).",
         "assumptions": ["f64 phi computation agrees with exact arithmetic outside a 1e-9 relative tie band"],
         "partial": "exact arithmetic instead of f64",
